@@ -815,6 +815,20 @@ func (fx *fnExec) evalCall(x ECall, env *SpecEnv) SV {
 			return Sc{s.T, to}
 		}
 		panic(vcErr("conversion %s of %T", x.Fun, v))
+	case "is_int", "is_string":
+		// dynamic type of an interface value
+		v := fx.sc(fx.evalSpec(x.Args[0], env), SInt)
+		fx.declareFun("dyn$type", []string{SInt}, SInt)
+		key := "int"
+		if x.Fun == "is_string" {
+			key = "string"
+		}
+		return Sc{tAnd(tNot(tEq(v, intLit64(0))), tEq(app(SInt, "dyn$type", v), intLit64(int64(fx.v.typeID(key))))), nil}
+	case "unbox_int":
+		v := fx.sc(fx.evalSpec(x.Args[0], env), SInt)
+		so := fx.isort()
+		fx.declareFun("unbox$int", []string{SInt}, so)
+		return Sc{app(so, "unbox$int", v), types.Typ[types.Int]}
 	case "pow2":
 		fx.needPow2()
 		return Sc{app(SInt, "pow2", fx.sc(fx.evalSpec(x.Args[0], env), SInt)), nil}
